@@ -34,6 +34,16 @@ CHECKS = {
         technique="same enumeration as C08 restricted to crop/greenhouse families + differential pairs (relocated vs not, expanded vs not) on every enumerated country/horizon/climate; scaled-baseline (x1e-3) no-quantisation check",
         text="Outdoor output == grown x (1 - greenhouse share) x (1 - waste) for every month; greenhouse area schedule (zero until delay+5, monotone, capped); relocation/expansion never lower any month; no rounding/truncation (baseline x 1e-3 scales every month).",
         note=TRUST),
+    "C10": dict(
+        engine="units", design_ref="3/C10",
+        technique="full product over every source unit triple x every target base triple on the real Food.in_units, against an independently derived factor table and the algebraic laws (round trip, path independence, form/shape preservation, anchors)",
+        text="Exhaustive over the 15 x 18 x 18 unit names (form-consistent triples; mixed-form triples of the default bases), scalar and 1-/3-month series, all 180 target base triples, 1 (quick) or 4 (thorough) population/requirement settings: every conversion factor is compared with the factor that follows from the meaning of the unit names; round trips, conversion through an intermediate unit, label form and shape, and the three anchor identities are checked.",
+        note=TRUST + "; 30-day month and 4e6 kcal per dry caloric ton are documented constants"),
+    "C11": dict(
+        engine="food-ops", design_ref="3/C11",
+        technique="breadth-first explicit-state exploration of operation sequences on real Food objects (exact canonical state, deduplicated) with a reference value type run in lock-step; full product of constructor argument kinds; full product of predicate operands under the four inclusion-flag settings",
+        text="All operation sequences up to depth 1 (all seeds) / 2 (8 seeds) quick, depth 2 complete + depth-3 unary chains thorough, over 22 unary and 5 binary operations with every reached state as partner; after every step labels, label list, form-vs-shape, values, operand immutability and must-refuse are checked against the reference. 16 predicates are compared between single values and one-month series for every operand pair over a 3/4-value menu under all four fat/protein settings.",
+        note=TRUST + "; label conventions are those of the Food class docstring; operations the docstrings declare unsupported may refuse"),
 }
 
 NOT_YET = "check not built yet in this session (planned in DESIGN.md section 3); not claimed until its machinery exists"
@@ -76,6 +86,8 @@ def main():
              "kind_free_text": "explicit-state exploration of animal_populations.main() under enumerated monthly environment answers"},
             {"name": "supplies", "path": "mc/supplies.py", "serves_properties": ["C08", "C09"],
              "kind_free_text": "enumeration of configurations through compute_parameters_first_round and of generated constants through the supply classes, reference model in lock-step"},
+            {"name": "units", "path": "mc/props/c10.py", "serves_properties": ["C10"], "kind_free_text": "exhaustive product over unit triples on Food.in_units"},
+            {"name": "food-ops", "path": "mc/props/c11.py", "serves_properties": ["C11"], "kind_free_text": "BFS over operation sequences on real Food objects with exact state hashing and a reference value type"},
         ],
         "checks": checks,
         "not_applicable": na,
